@@ -26,13 +26,43 @@ def enumerate_all(tier, rng):
     return tier == "thorough" and rng.random() < 0.5 or rng.random() < 0.01
 
 
+_PLT = None
+
+
+def prim_list_types():
+    """structure types with a counted list of constrained primitives (TPML_CC, TPML_HANDLE, TPML_ALG, ...)"""
+    global _PLT
+    if _PLT is None:
+        L = layout()
+        out = []
+        for n in L.struct_names():
+            t = L.types[n]
+            if t["kind"] != "struct":
+                continue
+            for f in t["fields"]:
+                ft = f["type"]
+                if isinstance(ft, dict) and L.is_prim(ft["list"]):
+                    lo, hi = L.bounds(ft["list"])
+                    iv = L.types[ft["list"]]["valid"]
+                    if not (len(iv) == 1 and iv[0][0] <= lo and iv[0][1] >= hi):
+                        out.append(n)
+        _PLT = sorted(set(out))
+    return _PLT
+
+
 def make_case(i, rng, tier):
-    inp = common.gen_input(rng, common.target_for(i, rng))
+    if rng.random() < 0.015 and prim_list_types():
+        from .. import gen
+        k = gen.Knobs(rng)
+        k.many = rng.choice((65, 80, 100, 256, 300))
+        inp = common.gen_input(rng, ("struct", rng.choice(prim_list_types())), k, huge=True)
+    else:
+        inp = common.gen_input(rng, common.target_for(i, rng), huge="many")
     o = model.decode(inp["root"], inp["data"], cc=inp["cc"], enc=inp["enc"])
     if not o.ok:
         raise HarnessError("generator produced a malformed input: %s %s" % (inp["label"], o.problem))
     leaves = F.constrained_leaves(o)
-    if enumerate_all(tier, rng) and 0 < len(leaves) <= 60:
+    if enumerate_all(tier, rng) and 0 < len(leaves) <= 60 and len(inp["data"]) <= 1500:
         vs = []
         for idx in leaves:
             it = o.items[idx]
@@ -50,7 +80,13 @@ def make_case(i, rng, tier):
             return common.with_variants(common.mk_case(rng, inp, inp["data"], []), vs[:400])
     data, recs = inp["data"], []
     r = rng.random()
-    if r < 0.2:
+    long_list = [idx for idx in leaves if "[" in o.items[idx][1] and int(o.items[idx][1].rsplit("[", 1)[1].split("]")[0]) >= 40]
+    if long_list and r >= 0.2:
+        # a long list of constrained primitives: the fault sits late in the list (whatever was learnt from the elements
+        # before it must not matter)
+        f = F.fault_value(data, o, rng, idx=rng.choice(long_list))
+        n = 1
+    elif r < 0.2:
         f = F.fault_boundary(data, o, rng)
         n = 0
     else:
